@@ -227,6 +227,25 @@ extra8 = {
 for k, v in extra8.items():
     lvl, tech, text, note, ref = claims[k]
     claims[k] = (lvl, tech, text + v, note, ref)
+# round-8 additions (second part)
+extra8b = {
+ 'C01': ' The breaker middleware is in the chain of every route whose switch is on (R13).',
+ 'C02': ' The shedding middleware is in the chain of every route whose switch is on (R13); ServiceConf.SetUp precedes everything that can build a shedder in every server constructor (R14; found and fixed F46).',
+ 'C03': ' Every Allow... entry point reaches reserveN exactly once with its own n and context and returns its answer (R10).',
+ 'C04': ' Nobody derives a context with context.WithoutCancel (R7); the timeout middleware is in the chain of every route whose switch is on (R8).',
+ 'C05': ' The max-connections limiter is in the chain of every route whose switch is on, whatever the route\'s features (R8).',
+ 'C06': ' The many-rows reader returns the scanner\'s Err() once the row loop ended (R11).',
+ 'C08': ' Nobody writes the ContentLength of a request it was handed (R17).',
+ 'C11': ' A container field Execute writes is emptied by a deferred call (R13).',
+ 'C13': ' The disconnection is a sticky flag set on TransientFailure/Shutdown, tested and cleared on the Ready path that notifies (R15).',
+ 'C14': ' The row readers report a stream that broke (C06.R11 runs under C14 as R7).',
+ 'C15': ' Ring identity: whatever in-tree code adds to a ConsistentHash is a fmt.Stringer in the form it is added, and the fields its String() returns are written only where the object is built (R9).',
+ 'C17': ' The configuration center hands the document to the format loader byte for byte (R16).',
+ 'C19': ' SetExpire stores its argument into the lease field on every path (R10).',
+}
+for k, v in extra8b.items():
+    lvl, tech, text, note, ref = claims[k]
+    claims[k] = (lvl, tech, text + v, note, ref)
 not_built_reason = 'static rules designed (DESIGN.md section 3) but not built yet in this revision'
 
 checks, na = [], []
